@@ -74,6 +74,8 @@ MOS = [
        lambda F: pitr_selection(F), functions=[("backup.rs", "restore_point_in_time_with_options"), ("backup.rs", "list_backups_from_dir")], role="pitr-picks-wrong-backup"),
     MO("O12.7/source_consistency", "create_full_backup / create_incremental_backup: fingerprint < archive write < re-check, and the checksum the metadata needs is set only on the re-check's Ok arm",
        lambda F: source_consistency()(F), functions=[("backup.rs", "create_full_backup"), ("backup.rs", "create_incremental_backup"), ("backup.rs", "verify_source_fingerprints")]),
+    MO("O12.8/restore_target", "open_restore_target: every extracted member is opened with write + create + truncate (a chain restore extracts MANIFEST once per backup: a shorter later copy must replace the earlier one, not overlay its prefix)",
+       lambda F: restore_target(F), functions=[("backup.rs", "open_restore_target")]),
     MO("O12.1/limits", "archive header parser: the name buffer is allocated only for 0 < name_len <= MAX_NAME, Ok only for data_len <= MAX_SIZE, file count Ok only for count <= MAX_FILES — proved for all values (DECIDES)",
        lambda F: limits_decided(F), functions=[("backup.rs", "read_archive_member_header"), ("backup.rs", "read_archive_file_count")]),
     MO("O12.3/chain_order", "restore_from_backup_with_options: for an incremental target the chain pushed along the parent links is reversed exactly once before any archive is verified or extracted, and it is not re-ordered by any other key",
@@ -335,6 +337,32 @@ def source_consistency():
             return Result("inconclusive", "BackupMetadata construction not found in " + f)
         cs += [precedes(f, FP, WR), precedes(f, WR, VF), only_via_call(f, SET, VF, VF_OK, why="the archive may mix two states of a file that changed while it was copied"), meta_checksum]
     return allof(*cs)
+
+
+def restore_target(F):
+    """open_restore_target (unix): OpenOptions::write(true), create(true) and truncate(true) all precede the open.  A flag that
+    is never set (or set to false) while the open is reached is a violation, not a pattern failure: the call names are std's."""
+    f = "backup::open_restore_target"
+    fc = FnCheck(F, f)
+    if fc.fn is None:
+        return [fc.missing()]
+    OPEN = call(r"= (std::fs::)?OpenOptions::open::<", name="OpenOptions::open")
+    if fc.count(OPEN) == 0:
+        # File::create (write + create + truncate by definition) is the other accepted form
+        if fc.count(call(r"= (std::fs::)?File::create::<", name="File::create")) > 0:
+            return [Result("holds", "restore targets are created with File::create (truncating)", sample={"fn": fc.name, "kind": "PROVENANCE"})]
+        return [Result("inconclusive", "open_restore_target opens its file in an unrecognised way")]
+    out = []
+    for o in ("write", "create", "truncate"):
+        SET = call(r"= (std::fs::)?OpenOptions::%s\((move |copy )?_\d+, const true\)" % o, name="OpenOptions::%s(true)" % o)
+        if fc.count(SET) == 0:
+            r = fc.reachable(OPEN)
+            out.append(Result("violated" if r.verdict == "holds" else "inconclusive", "restore targets are opened without %s(true): %s" % (o, "a later, shorter copy of a member extracted twice in a chain restore (MANIFEST) "
+                              "overwrites only the prefix of the earlier copy; the restored directory does not start" if o == "truncate" else "the member cannot be written"), queries=r.queries, seconds=r.seconds,
+                              sample={"fn": fc.name, "kind": "PRECEDES", "missing": "OpenOptions::%s(true)" % o}))
+        else:
+            out.append(fc.precedes(SET, OPEN))
+    return out
 
 
 def clear_decision(F):
